@@ -29,3 +29,11 @@ Theorem C13_no_silent_death : forall s, reachable s -> forall c ch, nth_error (c
   (wr ch = WDone \/ wr ch = WEnd) -> wterm ch = true /\ closing ch.
 Proof. exact no_silent_death. Qed.
 Print Assumptions C13_no_silent_death.
+
+(* ---- tie by translation (gen/SrcGomavlib.v regenerated from the source on every run) ---- the
+   queue length the transition system is proved for is the source's writeBufferSize *)
+From Coq Require Import ZArith.
+From GM Require Import SrcGomavlib SrcNodeTie.
+Theorem C13_source_queue_length : Z.of_nat Node.qcap = c_gomavlib_writeBufferSize.
+Proof. exact src_queue_length. Qed.
+Print Assumptions C13_source_queue_length.
